@@ -43,6 +43,8 @@ var (
 	S1c = contract('s', 1)
 	D0  = contract('d', 0)
 	T0  = contract('t', 0) // a contract whose owner is the contract s0
+	U1  = contract('u', 1) // a contract on shard 1 whose owner a0 lives on shard 0
+	V1  = contract('v', 1) // a contract on shard 1 whose owner is the contract s0 on shard 0
 	M   = contract('m', 0xff)
 	// M2 is another metachain system contract (the delegation manager's address form)
 	M2   = func() []byte { a := append([]byte{}, vmcommon.ESDTSCAddress...); a[29] = 4; return a }()
@@ -100,6 +102,10 @@ func Name(a []byte) string {
 		return "d0"
 	case string(T0):
 		return "t0"
+	case string(U1):
+		return "u1"
+	case string(V1):
+		return "v1"
 	case string(M):
 		return "m"
 	case string(M2):
@@ -235,6 +241,8 @@ func NewBuilder(env *world.Env) *Builder {
 	mk(T0, S0)
 	if env.Cfg.NumShards > 1 {
 		mk(S1c, C1)
+		mk(U1, A0)
+		mk(V1, S0)
 	}
 	return &Builder{Env: env, W: w}
 }
